@@ -502,6 +502,63 @@ pub fn gen_hub(r: &mut Rng, min_leaves: usize, max_leaves: usize, pool: PhasePoo
     DDesc { verts, edges, inputs, outputs, scalar: gen_scalar(r) }
 }
 
+/// Pi gadgets: 2-3 hubs with phase pi (mostly), each with 2-3 non-Clifford leaves on Hadamard
+/// edges created in interleaved order, over a small core. What `remove_gadget_pi` and the
+/// gadget fusion of `full_simp` work on after the Clifford part has been simplified.
+pub fn gen_pi_gadgets(r: &mut Rng) -> DDesc {
+    let nc = 1 + r.below(3);
+    let mut verts = vec![];
+    let mut edges: Vec<(usize, usize, EK)> = vec![];
+    for _ in 0..nc {
+        verts.push(DV { kind: VK::Z, ph: gen_phase(r, PhasePool::Exact), vars: vec![] });
+    }
+    for a in 0..nc {
+        for b in (a + 1)..nc {
+            if r.chance(0.4) {
+                edges.push((a, b, EK::H));
+            }
+        }
+    }
+    let nh = 2 + r.below(2);
+    let mut pending = vec![];
+    for _ in 0..nh {
+        let hub = verts.len();
+        let ph = if r.chance(0.8) { (1, 1) } else { (0, 1) };
+        verts.push(DV { kind: VK::Z, ph, vars: vec![] });
+        let mut nhd: Vec<usize> = (0..nc).filter(|_| r.chance(0.6)).collect();
+        if nhd.is_empty() && r.chance(0.7) {
+            nhd.push(r.below(nc));
+        }
+        for c in nhd {
+            edges.push((c, hub, EK::H));
+        }
+        pending.push((hub, 2 + r.below(2)));
+    }
+    for j in 0..3 {
+        for &(hub, nl) in &pending {
+            if j < nl {
+                let leaf = verts.len();
+                let ph = *r.pick(&[(1i64, 4i64), (-1, 4), (3, 4), (-3, 4)]);
+                verts.push(DV { kind: VK::Z, ph, vars: vec![] });
+                edges.push((hub, leaf, EK::H));
+            }
+        }
+    }
+    let nb = r.below(5);
+    let mut bnds = vec![];
+    for _ in 0..nb {
+        let b = verts.len();
+        verts.push(DV { kind: VK::B, ph: (0, 1), vars: vec![] });
+        let s = r.below(nc);
+        edges.push((s, b, if r.chance(0.5) { EK::H } else { EK::N }));
+        bnds.push(b);
+    }
+    let cut = if bnds.is_empty() { 0 } else { r.below(bnds.len() + 1) };
+    let inputs = bnds[..cut].to_vec();
+    let outputs = bnds[cut..].to_vec();
+    DDesc { verts, edges, inputs, outputs, scalar: gen_scalar(r) }
+}
+
 /// Matcher-edge shapes around phase gadgets: 2-3 hubs over a small core, where a hub may have
 /// no leaf, one leaf or several leaves, a leaf may hang on a plain edge, hubs may carry a
 /// phase, be adjacent, be X spiders, or have neighbourhoods that differ in one vertex only.
@@ -529,6 +586,8 @@ pub fn gen_gadget_pairs(r: &mut Rng, pool: PhasePool, var_prob: f64) -> DDesc {
     };
     let nh = 2 + r.below(2);
     let mut hubs = vec![];
+    let interleave = r.chance(0.5);
+    let mut pending: Vec<(usize, usize)> = vec![];
     for _ in 0..nh {
         let hub = verts.len();
         let ph = match r.below(10) {
@@ -555,12 +614,28 @@ pub fn gen_gadget_pairs(r: &mut Rng, pool: PhasePool, var_prob: f64) -> DDesc {
             add_edge(&mut edges, c, hub, k);
         }
         let nl = *r.pick(&[0usize, 1, 1, 1, 1, 2, 2, 3]);
-        for _ in 0..nl {
-            let leaf = verts.len();
-            verts.push(DV { kind: VK::Z, ph: gen_phase(r, pool), vars: gen_vars(r, var_prob) });
-            edges.push((hub, leaf, if r.chance(0.9) { EK::H } else { EK::N }));
+        if interleave {
+            pending.push((hub, nl));
+        } else {
+            for _ in 0..nl {
+                let leaf = verts.len();
+                verts.push(DV { kind: VK::Z, ph: gen_phase(r, pool), vars: gen_vars(r, var_prob) });
+                edges.push((hub, leaf, if r.chance(0.9) { EK::H } else { EK::N }));
+            }
         }
         hubs.push(hub);
+    }
+    // interleaved creation order: a0 b0 a1 b1 ... (the leaves of different hubs alternate in
+    // vertex order, which is the order the simplifiers iterate in)
+    let rounds = pending.iter().map(|p| p.1).max().unwrap_or(0);
+    for j in 0..rounds {
+        for &(hub, nl) in &pending {
+            if j < nl {
+                let leaf = verts.len();
+                verts.push(DV { kind: VK::Z, ph: gen_phase(r, pool), vars: gen_vars(r, var_prob) });
+                edges.push((hub, leaf, if r.chance(0.9) { EK::H } else { EK::N }));
+            }
+        }
     }
     if r.chance(0.1) {
         add_edge(&mut edges, hubs[0], hubs[1], EK::H);
